@@ -152,9 +152,9 @@ class ConH(object):
         try:
             return Outcome(fn(*args, **kwargs))
         except BaseException as e:
-            if isinstance(e, (KeyboardInterrupt, SystemExit)):
+            if isinstance(e, KeyboardInterrupt):
                 raise
-            return Outcome(exc=e)
+            return Outcome(exc=e)          # SystemExit included: exit() in the code under contract is an outcome, as in the symbolic run
 
     def check(self, clause, claim, alts=(), info=None):
         ok = bool(claim)
